@@ -73,6 +73,43 @@ def touching_sites(ctx_events, body, facts=None):
     return out
 
 
+def refusal_region_untouched(facts, rep, events, body, lb, ws):
+    """when the lock call at block lb FAILS (another handle is alive), nothing on the way out may touch the files"""
+    t = body.term(lb)
+    if "t" not in t:
+        return 0
+    cleanup = {b for b in range(body.n) if body.is_cleanup(b)}
+    failure_only = set()
+    # the branch on the outcome of the lock call: a `match` on the Result, or the `?` (Try::branch -> ControlFlow)
+    for sb in range(body.n):
+        tt = body.term(sb)
+        if tt["k"] != "switch" or body.is_cleanup(sb):
+            continue
+        hit = False
+        for r in trace(body, tt["d"]):
+            if r.kind == "call" and "<discr>" in r.fields:
+                if r.bb == lb:
+                    hit = True
+                elif str(r.what).endswith("Try>::branch") and r.obj is not None and r.obj.get("args") and any(x.kind == "call" and x.bb == lb for x in trace(body, r.obj["args"][0])):
+                    hit = True
+        if not hit:
+            continue
+        ok_t = [tb for (v, tb) in tt["vals"] if v == "0"]
+        bad_t = [tb for (v, tb) in tt["vals"] if v != "0"]
+        if not ok_t:
+            # `if let Err(e) = ..`: the listed value is the failure, the otherwise edge the success
+            ok_t = [tt["else"]]
+        elif tt["else"] not in ok_t and body.term(tt["else"])["k"] != "unreachable":
+            bad_t.append(tt["else"])
+        failure_only |= body.reachable(bad_t, cleanup) - body.reachable(ok_t, cleanup)
+    n = 0
+    for (b, what, site) in touching_sites(events, body, facts):
+        if b in failure_only and b != lb:
+            n += 1
+            rep.violation("D1", ws, "touch-after-refusal|%s" % what, "%s at %s runs on the path on which the directory lock was REFUSED (another handle is alive): a losing opener would modify or remove the live handle's files" % (what, site), site=site)
+    return n
+
+
 def run(facts, rep, events, model):
     n = 0
     LOCK_FIELD = fileclass.field_name(facts, "nomt::store::flock::Flock", "lock_fd")
@@ -102,8 +139,10 @@ def run(facts, rep, events, model):
         ws = wid.split("::", 1)[1]
         rem = w.ok_removed()
         for (b, what, site) in touching_sites(events, w, facts):
+            if b == lb:
+                continue  # the (inner) lock wrapper itself: judged on its own row
             n += 1
-            ok = b != lb and w.dominates(lb, b, removed=rem)
+            ok = w.dominates(lb, b, removed=rem)
             rep.check(ok, "D1", ws, "touch|%s" % what, "%s at %s in %s is not dominated by the success of Flock::lock: a second opener / creator could touch the directory's files without holding the lock" % (what, site, ws), site=site, detail="%s at %s after Flock::lock(..)?" % (what, site))
         for b, t in w.calls():
             c = t.get("callee") or ""
@@ -114,6 +153,7 @@ def run(facts, rep, events, model):
                         continue
                 n += 1
                 rep.violation("D1", ws, "before-lock|%s" % c.split("::", 1)[1], "%s at %s can run before the directory lock is held and is not one of the allowed probes" % (c, t.get("ln")), site=t.get("ln"))
+        n += refusal_region_untouched(facts, rep, events, w, lb, ws)
         for r in w.ok_returns():
             n += 1
             rep.check(w.dominates(lb, r, removed=rem), "D1", ws, "ok-return", "%s can return Ok without holding the lock" % ws, site=w.span, detail="Ok return dominated by Flock::lock")
@@ -126,6 +166,8 @@ def run(facts, rep, events, model):
     for b in sites:
         n += 1
         rep.check(model.ok_implied(op, b), "D1", "store::Store::open", "lock-checked|%s" % op.term(b)["callee"].split("::")[-1], "the result of %s at %s is not checked" % (op.term(b)["callee"], op.term(b).get("ln")), site=op.term(b).get("ln"), detail="`?`")
+    for lb_ in sites:
+        n += refusal_region_untouched(facts, rep, events, op, lb_, "store::Store::open")
     remo = set(op.ok_removed()) | set(sites)
     reach = op.reachable([0], remo)
     ts = touching_sites(events, op, facts)
